@@ -79,3 +79,32 @@ def decode(code, nlevels):
         digits.append(k)
         c = (c - k) // nlevels
     return digits[::-1]
+
+
+def _rows_chunk(args):
+    rowfn, nlevels, lo, hi = args
+    out = []
+    for code in range(lo, hi):
+        out.append(" ".join(map(str, rowfn(code, decode(code, nlevels)))))
+    return "\n".join(out) + "\n"
+
+
+def build_table(path, nlevels, maxlen, rowfn, procs=16):
+    """Write the lock-step table: row number = behaviour code, content = rowfn(code, digits) (ints).
+
+    Rows are computed by a process pool (the real code is called once per behaviour) and written in
+    code order."""
+    import multiprocessing as mp
+    total = (nlevels ** (maxlen + 1) - 1) // (nlevels - 1) - 1
+    step = max(1, min(5000, total // (procs * 4) + 1))
+    jobs = [(rowfn, nlevels, lo, min(lo + step, total + 1)) for lo in range(1, total + 1, step)]
+    ctx = mp.get_context("fork")
+    with open(path, "w") as f:
+        if total < 2000 or procs <= 1:
+            for j in jobs:
+                f.write(_rows_chunk(j))
+        else:
+            with ctx.Pool(procs) as pool:
+                for chunk in pool.imap(_rows_chunk, jobs):
+                    f.write(chunk)
+    return total
